@@ -3,6 +3,7 @@ package jsonrpc2
 import (
 	"context"
 	"encoding/json"
+	"errors"
 	"fmt"
 	"net"
 	"sync"
@@ -31,6 +32,10 @@ func ServePipe() (*Remote, *Remote) {
 	go client.Serve()
 	return &server, &client
 }
+
+// ErrInvalidResponse is returned when the remote answers a call with a message
+// that contains neither a result nor an error.
+var ErrInvalidResponse = errors.New("invalid response: missing result or error")
 
 // ContextMissingValueError is returned when a context is missing an expected value.
 type ContextMissingValueError struct {
@@ -192,6 +197,10 @@ func (r *Remote) Call(ctx context.Context, result interface{}, method string, pa
 	resp, err := r.receive(ctx, req.ID)
 	if err != nil {
 		return err
+	}
+	if resp.Response == nil {
+		// Message with our ID but neither a result nor an error
+		return ErrInvalidResponse
 	}
 	return resp.UnmarshalResult(result)
 }
